@@ -334,7 +334,7 @@ impl C09 {
             }
         }
         // carried over
-        if pi.decision_variables != inst.decision_variables {
+        if !same_variables(&pi.decision_variables, &inst.decision_variables) {
             mon.violation(format!("C09.variables-changed:{method}"), ctx(&pi));
         }
         if pi.sense != inst.sense {
